@@ -2606,4 +2606,17 @@ theorem factoryOfText_clean : LibClean := by
 
 end InterpLoc
 
+/-! ## the statement's own position -/
+
+theorem Expr.loc_rlocs (e : Expr) : e.loc.as .node ⊆ e.rlocs := by
+  cases e <;> simp [Expr.loc, Expr.rlocs]
+
+theorem Statement.loc_rlocs (s : Statement) : s.loc.as .node ⊆ s.rlocs := by
+  cases s with
+  | importDecl sets l => simp [Statement.loc, Statement.rlocs]
+  | definition d => cases d; simp [Statement.loc, Statement.rlocs, Def.rlocs]
+  | syntaxDef n r l => simp [Statement.loc, Statement.rlocs]
+  | expr e => simpa [Statement.loc, Statement.rlocs] using Expr.loc_rlocs e
+  | libraryDef n d l => simp [Statement.loc, Statement.rlocs]
+
 end Ruschm
